@@ -250,7 +250,7 @@ Fixpoint amp_loop (r : nat) (c : cursor) {struct r} : res :=
     end
   else ok c 0.
 
-(* parse_deref_steps_list: `for _ in 0..MAX_REFERENCE_DEPTH`. *)
+(* parse_deref_steps_list: `for _ in 0..=MAX_REFERENCE_DEPTH` (128 iterations; 127 before D70 was repaired). *)
 Fixpoint deref_steps_loop (E : parser) (n : nat) (c : cursor) : res :=
   match n with
   | O => err c                                 (* MaximumParseDepthExceeded *)
@@ -266,7 +266,7 @@ Fixpoint deref_steps_loop (E : parser) (n : nat) (c : cursor) : res :=
   end.
 
 Definition parse_deref_steps_list (E : parser) (c : cursor) : res :=
-  deref_steps_loop E 127 c.
+  deref_steps_loop E 128 c.
 
 (* parse_rest_of_arguments (after the opening parenthesis). *)
 Fixpoint args_loop (E : parser) (fuel : nat) (c : cursor) : res :=
